@@ -1973,6 +1973,11 @@ impl Archive {
             let mut offset_data = vec![0u8; offset_table_size];
             self.reader.read_exact(&mut offset_data)?;
 
+            // As for any sectored file, the offset table of an encrypted entry is stored under key - 1
+            if file_info.is_encrypted() {
+                decrypt_file_data(&mut offset_data, key.wrapping_sub(1));
+            }
+
             log::debug!(
                 "Read sector offset table: {} bytes for {} sectors",
                 offset_table_size,
@@ -2021,6 +2026,11 @@ impl Archive {
 
                 let mut sector_data = vec![0u8; sector_compressed_size];
                 self.reader.read_exact(&mut sector_data)?;
+
+                // Sector i of an encrypted entry is stored under key + i
+                if file_info.is_encrypted() {
+                    decrypt_file_data(&mut sector_data, key.wrapping_add(i as u32));
+                }
 
                 log::debug!(
                     "Sector {} data first 16 bytes: {:02X?}",
